@@ -161,6 +161,8 @@ def run_batch(engine, tier, base_seed, n_runs, jobs, budget_s=None, per_run_time
                     break
                 if budget_s and time.time() - t0 > budget_s:
                     continue
+                if os.environ.get("VERIF_STOP_FIRST") and any(r.get("viol") for r in results):
+                    continue        # screening mode: one violation is enough
                 nxt = next(it, None)
                 if nxt is not None:
                     pending.add(ex.submit(_work, (nxt, tier, per_run_timeout)))
